@@ -158,6 +158,11 @@ func (c *Change) CheckPairing() error {
 		}
 		seenMinus[m.id] = true
 	}
+	if c.Kind != "stmts" && len(minus) == 1 && len(plus) == 1 && minus[0].id == plus[0].id {
+		// the only elision of each side: they belong together wherever they stand (C04), also when the '+' line
+		// is written above the '-' line
+		return nil
+	}
 	for _, p := range plus {
 		best := -1
 		for i, m := range minus {
